@@ -38,10 +38,19 @@ theorem nodup_foldl_subscribeCore (l : List Topic) (s : St) (q : Nat) (nd : s.re
   | nil => exact nd
   | cons t l ih => simp only [List.foldl_cons]; exact ih _ (nodup_subscribeCore s q t nd)
 
-theorem regs_rxCloseInternal (s : St) (q : Nat) : (rxCloseInternal s q).regs = s.regs := by
+theorem nodup_foldl_unsubscribeCore (l : List Topic) (s : St) (q : Nat) (nd : s.regs.Nodup) :
+    (l.foldl (fun s t => unsubscribeCore s q t) s).regs.Nodup := by
+  induction l generalizing s with
+  | nil => exact nd
+  | cons t l ih => simp only [List.foldl_cons]; exact ih _ (nodup_unsubscribeCore s q t nd)
+
+theorem nodup_rxCloseInternal (s : St) (q : Nat) (nd : s.regs.Nodup) : (rxCloseInternal s q).regs.Nodup := by
   cases hx : s.rxs[q]? with
-  | none => rw [rxCloseInternal_none s q hx]
-  | some x => rw [rxCloseInternal_eq s q x hx]; split <;> rfl
+  | none => rw [rxCloseInternal_none s q hx]; exact nd
+  | some x =>
+    rw [rxCloseInternal_eq s q x hx]; split
+    · exact nodup_foldl_unsubscribeCore _ _ _ nd
+    · exact nd
 
 /-- I1: the topic lists never hold the same mailbox twice -/
 theorem step_regs_nodup (s : St) (op : Op) (nd : s.regs.Nodup) : (step s op).1.regs.Nodup := by
@@ -62,14 +71,12 @@ theorem step_regs_nodup (s : St) (op : Op) (nd : s.regs.Nodup) : (step s op).1.r
     · exact nd
   | rClose r =>
     simp only [step, rClose]; split <;> (try exact nd); split <;> (try exact nd)
-    simp only [regs_rxCloseInternal]; exact nd
+    exact nodup_rxCloseInternal _ _ nd
   | rDrop r =>
     simp only [step, rDrop]; split <;> (try exact nd)
     split
-    · split
-      · exact nd
-      · simp only [regs_rxCloseInternal]; exact nd
-    · simp only [regs_rxCloseInternal]; exact nd
+    · exact nd
+    · exact nodup_rxCloseInternal _ _ nd
   | rConv r => simp only [step, rConv]; split <;> exact nd
   | tryRecv r => simp only [step, tryRecv, recvWith]; split <;> (try exact nd); split <;> (try exact nd); split <;> exact nd
   | recv r =>
@@ -135,10 +142,8 @@ theorem quiet_buf (s : St) (op : Op) (hq : op.isQuiet = true) (r : Nat) : bufOf 
     refine Eq.trans (bufL_modAt_preserve _ _ _ ?_ r) ?_
     · intro x; rfl
     split
-    · split
-      · rfl
-      · rw [bufL_rxCloseInternal]; apply bufL_modAt_preserve; intro x; rfl
-    · rw [bufL_rxCloseInternal]
+    · rfl
+    · rw [bufL_rxCloseInternal]; apply bufL_modAt_preserve; intro x; rfl
   | rConv q => simp only [step, rConv]; split <;> (try rfl); apply bufL_modAt_preserve; intro x; rfl
   | rIsClosed q => simp only [step, rIsClosed]; split <;> rfl
   | isEmpty q => simp only [step, isEmpty]; split <;> rfl
